@@ -4,6 +4,6 @@ CONSTANT Threads <- MCThreads3
 CONSTANT MaxOps = 2
 CONSTANT CountAtWake = FALSE
 CONSTANT AllowSpurious = TRUE
-INVARIANTS TypeOK C01 C01P C12P C02Quiescent NoDeadlock TicketsAboveBound CountMatches UniqueTickets ActiveOpMatches
+INVARIANTS TypeOK C01 C01P C12P C02Quiescent NoDeadlock TicketsAboveBound CountMatches UniqueTickets ActiveOpMatches IndInv12
 PROPERTY Refines
 CHECK_DEADLOCK FALSE
